@@ -132,6 +132,7 @@ class Registry:
                            'StopIteration', 'AssertionError', 'RecursionError', 'Exception', 'RuntimeError',
                            'FileNotFoundError', 'NotImplementedError'}
         self.exc_parents = {'KeyError': 'LookupError', 'IndexError': 'LookupError'}
+        self.class_consts = {}     # ClassName -> {ATTR: SV}  class-level constants (e.g. Token.EOF)
         self.lemmas = []          # (name, props, fn(reg) -> list[(subname, hyps, goal)])  pure-logic lemmas over contracts
 
     def add(self, c: Contract):
